@@ -399,22 +399,22 @@ def judge_wiring(case):
 
 
 SUBS = [
-    Sub("grid", judge_grid, record_case(), quick=200, thorough=5000,
+    Sub("grid", judge_grid, record_case(), quick=200, thorough=20000,
         rule="freq = k*fs/nxseg, k=0..nxseg/2; Sy shape (n_all, n_ref, nxseg/2+1); both estimators"),
-    Sub("bilinear_gain", judge_bilinear, bilinear_case(), quick=150, thorough=4000,
+    Sub("bilinear_gain", judge_bilinear, bilinear_case(), quick=150, thorough=16000,
         rule="bilinear in (data, reference data); common gain g in +-[1e-6,1e6] scales Sy by g^2; both estimators"),
-    Sub("hermitian_psd", judge_hermitian, record_case(methods=("per",), nxmax=1024), quick=150, thorough=4000,
+    Sub("hermitian_psd", judge_hermitian, record_case(methods=("per",), nxmax=1024), quick=150, thorough=16000,
         rule="'per', Yref=Y: Hermitian and min eigenvalue >= -1e-10*trace at every line"),
-    Sub("welch", judge_welch, record_case(methods=("per",)), quick=200, thorough=5000,
+    Sub("welch", judge_welch, record_case(methods=("per",)), quick=200, thorough=20000,
         rule="'per' equals an independent Hann/one-sided/density Welch estimate without detrending at lines >= 2 (1e-9 relative to auto levels)"),
-    Sub("parseval", judge_parseval, record_case(methods=("per",), min_seg=12, max_seg=44, nxmax=512), quick=150, thorough=4000,
+    Sub("parseval", judge_parseval, record_case(methods=("per",), min_seg=12, max_seg=44, nxmax=512), quick=150, thorough=16000,
         rule="sum Sy_ii*df equals the windowed mean square of the mean-removed segments exactly; >= 32 segments of >= 64 samples: record mean square within 25 %"),
-    Sub("gain_delay", judge_delay, delay_case(), quick=150, thorough=4000,
+    Sub("gain_delay", judge_delay, delay_case(), quick=150, thorough=16000,
         rule="reference = g*x(t-d): Sy[x,ref]/Sy[x,x] = g*exp(-2 pi i f d/fs); per 5 % every interior line, cor 30 % median; opposite conjugation rejected"),
-    Sub("long_records", judge_welch, long_case(), quick=3, thorough=48,
+    Sub("long_records", judge_welch, long_case(), quick=3, thorough=192,
         rule="records of up to 400 000 samples and thousands of segments, 4..8 channels: equality with the independent Welch estimate"),
-    Sub("class_wiring", judge_wiring, wiring_case(), quick=120, thorough=3000,
+    Sub("class_wiring", judge_wiring, wiring_case(), quick=120, thorough=12000,
         rule="FDD / EFDD / FSDD / pLSCF through SingleSetup: result.freq, result.Sy equal fdd.SD_est(data, data, dt, nxseg, method, pov) for the user's run parameters"),
-    Sub("sinusoid", judge_sinus, sinus_case(), quick=200, thorough=5000,
+    Sub("sinusoid", judge_sinus, sinus_case(), quick=200, thorough=20000,
         rule="'per', grid-line sinusoids with complex amplitudes over three decades: Sy[i,j]/Sy[i,i] = a_j/a_i to 1e-9"),
 ]
